@@ -131,3 +131,23 @@ def twin_cases(run):
         got = [(nd.arg, {k: v for k, v in nd.fields if k in ("Default value", "type", "Help text")}) for nd in Page(text).nodes if nd.name == "data"]
         if got != exp:
             run.violation(case, exp, got, "an entry does not state the values of its own command")
+
+
+def empty_doc_cases(run):
+    """A doccomment may be empty: the command is documented all the same - with include_undocumented_option /
+    _function off it keeps its entry of its kind (C10: an option() yields a variable entry marked as a cache option)."""
+    import agg
+    from rstparse import Page
+    off = {k: False for k in ("function", "macro", "cpp_class", "cpp_attr", "cpp_constructor", "cpp_member", "ct_add_test", "add_test", "ct_add_section", "option")}
+    for doc in ("#[[[\n#]]\n", "#[[[ #]]\n", "#[[[\n#\n#]]\n"):
+        src = doc + 'option(EMPTY_DOC "help" ON)\n' + doc + "set(EMPTY_SET v)\n"
+        status, text, _, _ = agg.run_real(src, agg.make_settings(off))
+        run.count("empty-doc:" + doc)
+        case = {"source": src, "inc": off, "features": {"empty_doccomment": True, "flags_off": True}}
+        if status != "ok":
+            run.violation(case, "page", status + " " + text, "the pipeline raised")
+            continue
+        got = [(nd.name, nd.arg, dict((k, v) for k, v in nd.fields if k in ("type", "Default value", "Help text"))) for nd in Page(text).nodes if nd.name != "module"]
+        exp = [("data", "EMPTY_DOC", {"Help text": '"help"', "Default value": "ON", "type": "bool"}), ("data", "EMPTY_SET", {"Default value": "v", "type": "str"})]
+        if got != exp:
+            run.violation(case, exp, got, "a command with an empty doccomment does not get the entry of its kind")
